@@ -8,6 +8,12 @@ from ..rules import run as analyse, returns, fmt, is_app, S, C, pair, quad, cond
 HALF = lambda x: nf.floor(x / 2)
 
 
+def extent_inline(repo):
+    """The functions of extent.py are small pure index arithmetic: rules about one of them evaluate the
+    others it delegates to, however the work is split between them."""
+    return [f.key for f in repo.all_functions() if f.module.name == 'extent']
+
+
 def one_path(repo, key, config=None, inline=(), facts=None, types=None):
     f, paths, ip = analyse(repo, key, config=config, inline=inline, facts=facts, types=types)
     rets = returns(paths)
@@ -103,11 +109,11 @@ def extent_identities(chk, repo, clause):
     if not (isinstance(ie, Tup) and len(ie) == 4):
         raise AnalysisError('intersection_extent does not return a 4-tuple')
     irmin, irmax, icmin, icmax = ie.items
-    f, p = one_path(repo, 'extent.intersection_shift', {'a': a, 'b': b}, inline=['extent.intersection_extent'])
+    f, p = one_path(repo, 'extent.intersection_shift', {'a': a, 'b': b}, inline=extent_inline(repo))
     f2, p2 = one_path(repo, 'extent.array_center', {'extent': ie})
     chk.ob(clause, 'N-identity', 'extent.intersection_shift', '= array_center(intersection_extent)',
            p.ret == p2.ret, f'{fmt(p.ret)} vs {fmt(p2.ret)}', f.loc(p.node))
-    f, p = one_path(repo, 'extent.intersection_slices', {'a': a, 'b': b}, inline=['extent.intersection_extent'])
+    f, p = one_path(repo, 'extent.intersection_slices', {'a': a, 'b': b}, inline=extent_inline(repo))
     sl = p.ret
     try:
         (arow, acol), (brow, bcol) = [x.items for x in sl.items]
@@ -124,7 +130,7 @@ def extent_identities(chk, repo, clause):
                f'absolute starts {fmt(sa.lo + amin)} / {fmt(sb.lo + bmin)}; intersection starts at {fmt(lo)}',
                f.loc(p.node))
     # intersection_shape
-    f, paths, _ = analyse(repo, 'extent.intersection_shape', config={'a': a, 'b': b}, inline=['extent.intersection_extent'])
+    f, paths, _ = analyse(repo, 'extent.intersection_shape', config={'a': a, 'b': b}, inline=extent_inline(repo))
     rets = returns(paths)
     full = [p for p in rets if isinstance(p.ret, Tup) and len(p.ret) == 2]
     empty = [p for p in rets if isinstance(p.ret, Tup) and len(p.ret) == 0]
@@ -156,7 +162,7 @@ def extent_equivariance(chk, repo, clause):
     equivariant(chk, clause, repo, 'extent.array_center', {'extent': ext}, quads=[ext])
     for fn in ('intersect', 'intersection_extent', 'intersection_shape', 'intersection_slices', 'intersection_shift'):
         equivariant(chk, clause, repo, f'extent.{fn}', {'a': a, 'b': b}, quads=[a, b],
-                    inline=['extent.intersection_extent'])
+                    inline=extent_inline(repo))
     # propagate._mask_shape / _mask_shift use lentil.boundary(x, threshold)
     for fn in ('_mask_shape', '_mask_shift'):
         f, paths, _ = analyse(repo, f'propagate.{fn}')
